@@ -17,6 +17,7 @@ from ..muxmon import lifetimes
 rs = bootstrap()
 
 M = 8       # items are encoded as value * M + outer group
+DIRTY = 999  # the value on which the map in front of the context raises (only the dirty group holds it)
 
 
 def gen_ctx(rng, opts):
@@ -44,6 +45,15 @@ def gen_ctx(rng, opts):
     return ['group_by', rng.choice(['mod:%d', 'kt:%d', 'ks:%d', 'kmix:%d']) % rng.choice([2, 3, 5, 17]), inner]
 
 
+def _with_ignores(node):
+    """the node with rs.error.ignore() appended to the pipeline of every (nested) context"""
+    if node[0] == 'tee_map':
+        return [node[0], node[1], [[_with_ignores(n) for n in b] for b in node[2]]]
+    if node[0] in progs.CONTEXTS:
+        return node[:-1] + [[_with_ignores(n) for n in node[-1]] + [['ignore']]]
+    return node
+
+
 class C02(Check):
     ID = 'C02'
     LEVEL = 'exploration'
@@ -60,7 +70,8 @@ class C02(Check):
                'rxsci/operators/take.py', 'rxsci/operators/distinct.py', 'rxsci/data/lag.py', 'rxsci/data/pad.py', 'rxsci/operators/start_with.py',
                'rxsci/operators/assert_.py', 'rxsci/data/roll.py', 'rxsci/data/split.py', 'rxsci/data/time_split.py', 'rxsci/operators/group_by.py']
     REQUIRED_TAGS = ['roll', 'split', 'time_split', 'group_by', 'outer-group', 'tee_map', 'scan', 'distinct', 'lag', 'first', 'last', 'take',
-                     'pad_start', 'pad_end', 'start_with', 'batch', 'assert_1', 'duc', 'slot-reused', 'scale']
+                     'pad_start', 'pad_end', 'start_with', 'batch', 'assert_1', 'duc', 'slot-reused', 'scale', 'after-aborted-subscriptions',
+                     'prelude:dispose', 'prelude:source_error', 'prelude:consumer_raise', 'prelude:peek']
     REQUIRED_OBSERVED = ['lifetimes_replayed', 'metamorphic_pairs_compared']
 
     def generate(self, rng, tier, shard, nshards):
@@ -91,8 +102,15 @@ class C02(Check):
                 if ctx[0] == 'time_split':
                     xs = sorted(rng.randint(0, 40) for _ in range(ln))
                 seqs.append(xs)
-            yield {'ctx': ctx, 'outer': outer, 'seqs': seqs, 'shapes': [rng.choice(gen.INTERLEAVINGS), rng.choice(gen.INTERLEAVINGS)],
-                   'iseed': rng.randrange(1 << 30)}
+            case = {'ctx': ctx, 'outer': outer, 'seqs': seqs, 'shapes': [rng.choice(gen.INTERLEAVINGS), rng.choice(gen.INTERLEAVINGS)],
+                    'iseed': rng.randrange(1 << 30)}
+            if k % 4 == 1:
+                # the observable has a history: subscriptions that were disposed mid-stream, died of a source error, or
+                # whose consumer raised; what they leave in the store must not show in the judged subscription
+                total = sum(len(x) for x in seqs)
+                case['prelude'] = [[rng.choice(['dispose', 'source_error', 'consumer_raise', 'peek']), rng.randint(0, max(1, total))]
+                                   for _ in range(rng.randint(1, 3))]
+            yield case
 
     # ------------------------------------------------------------------
     def _run(self, case, shape, salt):
@@ -101,8 +119,15 @@ class C02(Check):
         if case['outer']:
             pairs = gen.interleave_keys(r, case['seqs'], shape)
             items = [v * M + g for g, v in pairs]
-            prog = [['group_by', 'mod:%d' % M, [['map', 'div:%d' % M], ctx]]]
-            path = (0, 1)
+            if case.get('dirty') is not None:
+                # (a mux error that leaves a window pipeline unhandled is fatal where the windows are demultiplexed,
+                # so it is dropped at the end of the window pipeline as well as after the context)
+                ctx = _with_ignores(ctx)
+                prog = [['group_by', 'mod:%d' % M, [['map', 'div:%d' % M], ['map', 'raise_on:%d:id' % DIRTY], ctx, ['ignore']]]]
+                path = (0, 2)
+            else:
+                prog = [['group_by', 'mod:%d' % M, [['map', 'div:%d' % M], ctx]]]
+                path = (0, 1)
         else:
             items = list(case['seqs'][0])
             prog = [ctx]
@@ -111,9 +136,14 @@ class C02(Check):
         taps = {path: (head, tail)}
         if case['outer']:
             taps[(0,)] = (ohead, None)
-        snap = progs.run_mux(prog, items, taps=taps)
+        snap = progs.run_mux(prog, items, taps=taps, prelude=case.get('prelude'))
         # which outer group an outer key serves is read off the (encoded) items it receives
         self._outer_of = {e[1]: e[2] % M for e in ohead if e[0] == 'N'}
+        if case.get('dirty') is not None:
+            d = case['dirty']
+            keep = lambda e: len(e) < 2 or not isinstance(e[1], tuple) or self._outer_of.get(e[1][1]) != d      # noqa: E731
+            head[:] = [e for e in head if keep(e)]
+            tail[:] = [e for e in tail if keep(e)]
         return snap, head, tail
 
     def _pairs(self, head, tail, out):
@@ -148,6 +178,11 @@ class C02(Check):
         out.tags += [ctx[0]] + sorted(set(names))
         if case['outer']:
             out.tags.append('outer-group')
+        if case.get('prelude'):
+            out.tags.append('after-aborted-subscriptions')
+            out.tags += ['prelude:' + p[0] for p in case['prelude']]
+        if case.get('dirty') is not None:
+            out.tags.append('beside-a-group-with-failing-records')
         if any(len(x) >= 300 for x in case['seqs']):
             out.tags.append('scale')
         snap, head, tail = self._run(case, case['shapes'][0], 0)
@@ -222,8 +257,15 @@ class C02(Check):
                 seqs = list(case['seqs'])
                 seqs[g] = xs[:k] + xs[k + 1:]
                 yield dict(case, seqs=seqs)
-        if case['outer']:
+        if case['outer'] and case.get('dirty') is None:
             yield dict(case, outer=False, seqs=[case['seqs'][0]])
+        if case.get('prelude'):
+            c = dict(case)
+            del c['prelude']
+            yield c
+            for k in range(len(case['prelude'])):
+                if len(case['prelude']) > 1:
+                    yield dict(case, prelude=case['prelude'][:k] + case['prelude'][k + 1:])
         ctx = case['ctx']
         for sub in shrink_prog({'p': ctx[-1]}, 'p'):
             if sub['p'] and progs.well_typed(sub['p']) is not None:
